@@ -15,6 +15,7 @@ DECIDED = ("R2 every successful return of parse_fen and BoardBuilder::build is d
            "present on every accepting path); R5 the en-passant check requires the square behind the pawn empty and an OPPONENT PAWN on the double-step rank of the marker's file "
            "(ranks: White to move 6th/5th, Black to move 3rd/4th); R6 FromStr for Board goes through parse_fen only. "
            "Panic-freedom of the parser (R1) is the C07 obligation set restricted to parse_fen's call tree and is reported there.")
+DECIDED = DECIDED + " R7 totality: every panic / assert / unsafe site in the call tree of parse_fen, from_str and BoardBuilder::build is discharged (the C07 ledger restricted to that tree); R8 the predicates the castling check branches on, CastleRights::contains(side, colour) and contains_color(colour), equal their definitions (bit = side + 2*colour) on all 16 right sets; R3's piece-count bound is decided by evaluating the accepting path's conditions on all (white, black) counts in 0..=20."
 NOT_DECIDED = ("'every canonical FEN of a legally reachable position is accepted' (needs the parser's loop semantics on actual strings); the accepting structure is checked, "
                "not the accepted language")
 EXPLANATION = ("K4: each validator is tabulated with its helpers opaque; an accepting (Ok) leaf's path condition is the conjunction the validator demands, so every stated "
